@@ -208,7 +208,9 @@ def rerun_worker(args):
                 for inst in prog for attr in ('param0', 'param1')
                 if isinstance(getattr(inst, attr), int) and not isinstance(getattr(inst, attr), bool) and abs(getattr(inst, attr)) >= SENT_BASE]
 
-    def scenario(vals, stop_at, sym):
+    def scenario(vals, stop_at, sym, how=0):
+        """how: 0 = execute() directly; 1 = the first execution is started the way the job controller does it
+        (prepare(), then execute()); 2 = a stop request arrives after the first execution has ended."""
         net = world.configure(case.specs)
         job = ScriptJob.from_string(case.text)
         slots = find_slots(job.program)
@@ -224,23 +226,32 @@ def rerun_worker(args):
         want_abort = net.aborted
         # history: first execution (complete, or stopped before step stop_at), then the execution under test
         reset_devices(net)
+        if how == 1:
+            job.prepare()
         exec_job(job, net, stop_at)
+        if how == 2:
+            job.request_stop()              # too late for that run; it must not reach into the next one
         unchanged = same_listing(before, listing_of(job.program))
         reset_devices(net)
         exec_job(job, net)
         got = plain(scripth.norm_vm_trace(list(net.trace)))
         return want, want_abort, got, net.aborted, unchanged
 
+    hows = []
+
     def harness(ctx):
         vals = scripth.make_values(ctx, case)
         k = ctx.choose(args['stops'] + 1, 'stop-at')
         stop_at = None if k == 0 else (k - 1) * args['stride']
-        return vals, stop_at, scenario(vals, stop_at, True)
+        how = ctx.choose(3, 'how-started') if k <= 1 else 0
+        hows.append(how)
+        return vals, stop_at, scenario(vals, stop_at, True, how)
     for ctx, out in symx.explore(harness, max_paths=args['max_paths'], timeout_ms=4000, stats=res.stats, deadline=time.time() + args['budget_s']):
         if isinstance(out, symx.Abort):
             res.out_of_bound += 1
             continue
         vals, stop_at, (want, want_abort, got, got_abort, unchanged) = out
+        how = hows[-1] if hows else 0
         res.nontrivial += 1
         what, cons = None, []
         if not unchanged:
@@ -264,7 +275,7 @@ def rerun_worker(args):
         symx.Ctx.cur = None
         world.uninstall_real_mode()
         try:
-            w2, wa2, g2, ga2, un2 = scenario(cv, stop_at, False)
+            w2, wa2, g2, ga2, un2 = scenario(cv, stop_at, False, how)
             msg = None
             if not un2:
                 msg = 'program altered'
@@ -276,7 +287,8 @@ def rerun_worker(args):
             symx.Ctx.cur = saved
         what = what or 'second execution sends different values'
         res.violation('%s|%s' % (case.tag, scripth._sig_of(what)[:60]), '%s\n  first execution: %s\n  replay: %s\n  script:\n%s'
-                      % (what, 'complete' if stop_at is None else 'stop requested before VM step %d' % stop_at, msg, scripth.text_with_values(case, cv)),
+                      % (what, ('complete' if stop_at is None else 'stop requested before VM step %d' % stop_at)
+                         + ('', ', started through prepare() as the job controller does', ', stop requested after it had ended')[how], msg, scripth.text_with_values(case, cv)),
                       inputs={'script': scripth.text_with_values(case, cv), 'stop_at': stop_at}, replayed=msg is not None)
     if not symx.explore.last_exhaustive:
         res.exhaustive = False
